@@ -168,6 +168,18 @@ def new_parent_check(h, design, built, dname):
     ]}
     d2["top"] = "NewP"
     rdev, rpart = refsem.R(d2)
+    # an unrelated module that merely has the *name* of the mid-level module and a bundle port of the same name (but of
+    # another bundle type) is exported in between: per-module caches must be keyed by the module, not by its name
+    try:
+        twin = h.Module(name=mid)
+        tb_ = h.Bundle(name="TwinB")
+        tb_.only = h.Signal(width=3)
+        setattr(twin, bport, tb_(port=True))
+        twin.add(h.Signal(name="tw", width=3))
+        twin.add(h.R(r=1)(p=getattr(twin, bport).only[0], n=twin.tw[1]), name="rt")
+        h.to_proto(twin)
+    except Exception as e:
+        return ("twin_raised", short_exc(e))
     # ... and built on the *already elaborated* objects
     from ..build import build_module, build_ext
 
